@@ -140,8 +140,8 @@ Definition demand_vec (t : task) : list Z := match tk_demand t with Some v => v 
 (* tasks.iter().map(..).sum() : fold(default, |acc, item| item + acc) *)
 Definition get_demand (o : option (list task)) : list Z :=
   fold_left (fun acc t => vadd (demand_vec t) acc) (olist o) [].
-(* `x != MultiDimLoad::default()` : partial_cmp over max(size) dims; size 0 gives None, i.e. "not equal" *)
-Definition load_ne_default (v : list Z) : bool := (List.length v =? 0)%nat || existsb (fun x => negb (x =? 0)) v.
+(* since the K8 repair: `(pickups - deliveries).load.iter().any(|value| *value != 0)` on the zero-padded array *)
+Definition load_ne_default (v : list Z) : bool := existsb (fun x => negb (x =? 0)) v.
 Definition over8 (v : list Z) : bool := (8 <? List.length v)%nat.
 Definition task_over8 (t : task) : bool := match tk_demand t with Some v => over8 v | None => false end.
 
@@ -354,7 +354,7 @@ Definition fleet_panics (d : doc) : bool :=
       || match sh_latest s with Some l => tm_bad l | None => false end
       || match sh_end s with Some e => tm_bad e | None => false end
       || (match v_ids v with [] => false | _ => true end
-          && (if multi then over8 (v_capacity v) else match v_capacity v with [] => true | _ => false end)))
+          && (if multi then over8 (v_capacity v) else false)))                (* since the K6 repair: capacity.first().copied().unwrap_or_default() *)
     (v_shifts v)) (d_vehicles d)
   (* CoreFleet::new: assert!(!vehicles.is_empty()) — one core vehicle per (shift, vehicle id) *)
   || forallb (fun v => match v_shifts v, v_ids v with _ :: _, _ :: _ => false | _, _ => true end) (d_vehicles d).
@@ -386,8 +386,9 @@ Definition reader_panics (d : doc) : bool :=
    `if coord_index.has_indices() { vec![] } else { create_approx_matrices(..) }`; create_approx_matrices returns no matrix when there
    is no profile (11fbd19; validation then reports E1501), otherwise get_approx_transportation asserts speed > 0 for every speed
    (speed = profile.speed.unwrap_or(10); `speeds` = the speeds given explicitly).  With an index location nothing is approximated. *)
-Definition pre_validation_panics (has_indices : bool) (profiles : list string) (speeds : list Z) : bool :=
-  negb has_indices && negb (is_nil profiles) && existsb (fun s => s <=? 0) speeds.
+Definition pre_validation_panics (has_indices : bool) (profiles : list string) (speeds : list Z) : bool := false.
+(* since the X14 repair create_approx_matrices also returns no matrix when an explicit speed is not positive: *)
+Definition approx_skipped (profiles : list string) (speeds : list Z) : bool := is_nil profiles || existsb (fun s => s <=? 0) speeds.
 (* reduced documents carry no explicit speed *)
 Definition approx_panics (d : doc) : bool := pre_validation_panics false (d_profiles d) [].
 Definition validate_approx (d : doc) : vres := if approx_panics d then VPanic else validate d.
